@@ -164,6 +164,36 @@ def run(prop, tier, seed, known):
                 g3 = metrics(ri3, rl3, ei, el, size, beta)
                 if not all(close(got[k], g3[k]) for k in got):
                     fails.append('scores change when reference interval %s is cut at %s: %s vs %s' % (ri[j], cut, got, g3))
+            # C16 / C12: the rows of an annotation listed in another order (with their labels) are the same annotation; cutting every interval
+            # into pieces shorter than a coarse frame changes nothing either
+            if len(ri) > 1:
+                # (interior boundaries moved off the frame grid: which interval owns a frame that falls exactly on a shared boundary is decided
+                # by the listing order and is not part of the claim)
+                ro_ = [[s_ + (0.1 if s_ > 0 else 0.0), e_ + (0.1 if e_ < ri[-1][1] else 0.0)] for s_, e_ in ri]
+                perm_ = list(range(len(ri)))
+                rng.shuffle(perm_)
+                g_sorted = metrics(ro_, rl, ei, el, size, beta)
+                gp = metrics([list(ro_[k_]) for k_ in perm_], [rl[k_] for k_ in perm_], ei, el, size, beta)
+                if not all(close(g_sorted[k], gp[k]) for k in g_sorted):
+                    fails.append('segment scores differ from their textbook formula when the reference rows are listed in the order %s: %s vs %s (ref %s %s)' % (perm_, gp, g_sorted, ro_, rl))
+            if it % 5 == 0:
+                big_ = 1.0
+                fine_r, fine_rl = [], []
+                for (s_, e_), l_ in zip(ri, rl):
+                    t_ = s_
+                    while t_ < e_ - 1e-12:
+                        nx_ = min(e_, t_ + 0.75)
+                        fine_r.append([t_, nx_])
+                        fine_rl.append(l_)
+                        t_ = nx_
+                try:
+                    gc0 = metrics(ri, rl, ei, el, big_, beta)
+                    gc1 = metrics(fine_r, fine_rl, ei, el, big_, beta)
+                    if not all(close(gc0[k], gc1[k]) for k in gc0):
+                        fails.append('scores change when every reference interval is cut at [%s] into pieces shorter than the frame size %s: %s vs %s' % (
+                            [x_[0] for x_ in fine_r][1:], big_, gc0, gc1))
+                except Exception as ex:
+                    fails.append('segment metrics raised %s when the reference is cut at [...] into pieces shorter than the frame size' % type(ex).__name__)
             # ranges (C01)
             for key in ('pairwise', 'nce', 'v'):
                 if any(not (x != x or -1e-9 <= x <= 1 + 1e-9) for x in got[key]):
